@@ -15,10 +15,26 @@ def C17_never_idle : Prop := ∀ (cfg : Cfg) (evs : List Ev), neverIdle (toMStep
 def C17_fatal_surfaces : Prop :=
   ∀ (cfg : Cfg) (evs : List Ev), fatalSurfaces (toMSteps (run cfg evs)) = true ∧ escapeSurfaces (toMSteps (run cfg evs)) = true
 
-/-- Once failures cease the member reaches stable membership within the pending delay plus the
-    protocol's reply count (model time).  Not attempted yet. -/
+/-- failure-free events: time passing, a timer firing, successful replies, a consumer's shutdown
+    completing successfully (the same predicate as `Afkak.Group.okEv`, restated here because this
+    file imports only the model) -/
+def okEv : Ev → Bool
+  | .advance _ | .fire _ none | .coordDone .ok | .metaDone .ok | .joinDone (.ok ..) | .partsDone .ok
+  | .syncDone (.ok _) | .consumerDown _ true => true
+  | _ => false
+
+/-- Full strength: once failures cease, EVERY started, not stopping member (with no `stop()` waiting
+    for its consumers) reaches stable membership by a failure-free continuation of at most
+    `6 + #consumers` events.  The code violates it (finding F12, non-Kafka half: the member is idle
+    for ever): `C17_rejoins_bounded_counterexample`.  Proved (`C17_rejoins_bounded_partial`) when no
+    non-Kafka error escaped the join and the member is not in the middle of `on_join_prepare`; for a
+    drain in progress the converse drain invariant (every awaited shutdown Deferred belongs to a
+    consumer that is still draining) is not proved — the full-stack stage checks that case on the
+    code (every member not stopped is stable within 200 virtual seconds after the last fault). -/
 def C17_rejoins_bounded : Prop :=
   ∀ (cfg : Cfg) (evs : List Ev), (final cfg evs).started = true → (final cfg evs).stopping = false →
-    ∃ tail : List Ev, tail.length ≤ 8 ∧ (final cfg (evs ++ tail)).rejoinNeeded = false
+    (final cfg evs).stopDraining = false →
+    ∃ tail : List Ev, tail.all okEv = true ∧ tail.length ≤ 6 + (final cfg evs).cons.length ∧
+      (finalFrom cfg (final cfg evs) tail).rejoinNeeded = false
 
 end Afkak.Props.C17.Open
